@@ -298,10 +298,14 @@ def families(tier):
             fam_post(1, ['VCPU']),
             fam_post(1, ['VCPU'], clear_first=True),
             fam_put(1, ['VCPU'], version='sym'),
-            fam_reshape_general()]
+            fam_reshape_general(),
+            # several classes asked of one provider; each inventory may be
+            # missing on its own
+            fam_put(1, ['VCPU', 'DISK_GB']),
+            fam_post(1, ['VCPU', 'DISK_GB'])]
     if tier == 'thorough':
         fams += [fam_reshape(False),
-                 fam_put(2, ['VCPU']), fam_put(1, ['VCPU', 'DISK_GB']),
+                 fam_put(2, ['VCPU']),
                  fam_post(2, ['VCPU']),
                  fam_put(1, ['VCPU'], version='1.12'),
                  fam_put(1, ['VCPU'], version='1.39'),
@@ -316,7 +320,6 @@ def families(tier):
                  fam_put(1, ['VCPU'], ratio_fixed=0.3),
                  fam_post(1, ['VCPU'], writers=(1, 3, 4)),
                  fam_post(2, ['VCPU'], tree='chain', clear_first=True),
-                 fam_post(1, ['VCPU', 'DISK_GB']),
                  fam_post(1, ['VCPU'], version='1.13'),
                  fam_post(1, ['VCPU'], version='1.28'),
                  fam_post(1, ['VCPU'], version='1.38')]
